@@ -41,6 +41,7 @@ type Task struct {
 	Panic  any
 	Stack  string
 	waitMu *Mutex // non-nil: suspended in Lock on this mutex
+	waitFn func() bool // non-nil: suspended until it returns true (RWMutex)
 	wake   chan struct{}
 	s      *Sched
 	quiet  int
@@ -101,6 +102,9 @@ func (s *Sched) Runnable(t *Task) bool {
 		return false
 	}
 	if t.waitMu != nil && t.waitMu.held.Load() {
+		return false
+	}
+	if t.waitFn != nil && !t.waitFn() {
 		return false
 	}
 	return true
@@ -277,6 +281,87 @@ func (m *Mutex) Unlock() {
 // Held reports whether the mutex is held and by which task.
 func (m *Mutex) Held() (bool, string) { return m.held.Load(), m.owner }
 
+// RWMutex replaces sync.RWMutex in instrumented packages: one writer or any
+// number of readers; a task suspended in Lock / RLock is runnable only when it
+// could take the lock.
+type RWMutex struct {
+	w       atomic.Bool
+	readers atomic.Int32
+	owner   string
+}
+
+func (m *RWMutex) acquire(kind string, can func() bool, take func() bool) {
+	s := active.Load()
+	if s != nil && s.cur != nil && s.cur.quiet == 0 {
+		t := s.cur
+		if s.Transparent != nil && can() && s.Transparent(callerFunc(4), kind) {
+			if take() {
+				return
+			}
+		}
+		t.waitFn = can
+		yield(kind, "", true)
+		for !take() {
+			yield(kind, "", true)
+		}
+		t.waitFn = nil
+		return
+	}
+	for !take() {
+		runtime.Gosched()
+	}
+}
+
+func (m *RWMutex) Lock() {
+	m.acquire("RWMutex.Lock", func() bool { return !m.w.Load() && m.readers.Load() == 0 }, func() bool {
+		if m.readers.Load() != 0 || !m.w.CompareAndSwap(false, true) {
+			return false
+		}
+		if m.readers.Load() != 0 { // a reader slipped in (only possible outside the scheduler)
+			m.w.Store(false)
+			return false
+		}
+		m.owner = CurrentTask()
+		return true
+	})
+}
+
+func (m *RWMutex) Unlock() {
+	if !m.w.CompareAndSwap(true, false) {
+		panic("verifrt: unlock of unlocked RWMutex")
+	}
+}
+
+func (m *RWMutex) RLock() {
+	m.acquire("RWMutex.RLock", func() bool { return !m.w.Load() }, func() bool {
+		if m.w.Load() {
+			return false
+		}
+		m.readers.Add(1)
+		if m.w.Load() {
+			m.readers.Add(-1)
+			return false
+		}
+		return true
+	})
+}
+
+func (m *RWMutex) RUnlock() {
+	if m.readers.Add(-1) < 0 {
+		panic("verifrt: RUnlock of unlocked RWMutex")
+	}
+}
+
+func (m *RWMutex) TryLock() bool {
+	if m.readers.Load() != 0 || !m.w.CompareAndSwap(false, true) {
+		return false
+	}
+	return true
+}
+
+// Held reports whether the write lock is held and by which task.
+func (m *RWMutex) Held() (bool, string) { return m.w.Load(), m.owner }
+
 // ---------------------------------------------------------------- atomics
 // Same memory layout as the sync/atomic types (the counter file code casts
 // mapped memory to them).
@@ -299,6 +384,8 @@ func (x *Uint64) CompareAndSwap(old, new uint64) bool {
 }
 
 // Raw reads the value without yielding (for projections).
+func (x *Uint64) Or(mask uint64) uint64  { Yield("Uint64.Or", ""); return x.v.Or(mask) }
+func (x *Uint64) And(mask uint64) uint64 { Yield("Uint64.And", ""); return x.v.And(mask) }
 func (x *Uint64) Raw() uint64 { return x.v.Load() }
 
 type Uint32 struct{ v atomic.Uint32 }
@@ -317,6 +404,8 @@ func (x *Uint32) CompareAndSwap(old, new uint32) bool {
 	Yield("Uint32.CompareAndSwap", "")
 	return x.v.CompareAndSwap(old, new)
 }
+func (x *Uint32) Or(mask uint32) uint32  { Yield("Uint32.Or", ""); return x.v.Or(mask) }
+func (x *Uint32) And(mask uint32) uint32 { Yield("Uint32.And", ""); return x.v.And(mask) }
 func (x *Uint32) Raw() uint32 { return x.v.Load() }
 
 type Int32 struct{ v atomic.Int32 }
